@@ -139,11 +139,64 @@ func (e *Exec) obligeL(st *State, kind, label string, pos token.Position, goal *
 		e.Obls = append(e.Obls, o)
 		return
 	}
-	o.Assume = st.PC[:len(st.PC):len(st.PC)]
-	o.Goal = goal
+	o.Assume, o.Goal = e.propagateConsts(st.PC, goal)
+	if o.Goal.IsTrue() {
+		o.Trivial = true
+		o.Status = "trivial"
+		e.Obls = append(e.Obls, o)
+		st.assume(goal)
+		return
+	}
 	o.Inputs = e.Replay
 	e.Obls = append(e.Obls, o)
 	st.assume(goal)
+}
+
+// propagateConsts rewrites a query (assumptions, goal) by substituting the `variable == constant` facts
+// among the assumptions into everything else, to a fixpoint (bounded). The defining facts are kept, so the
+// rewritten query is equivalent to the original one; it only spares the solver the propagation.
+func (e *Exec) propagateConsts(pc []*Term, goal *Term) ([]*Term, *Term) {
+	cur := pc[:len(pc):len(pc)]
+	all := map[*Term]*Term{}
+	for round := 0; round < 6; round++ {
+		m := constFacts(cur)
+		fresh := map[*Term]*Term{}
+		for k, v := range m {
+			if _, ok := all[k]; !ok {
+				fresh[k] = v
+				all[k] = v
+			}
+		}
+		if len(fresh) == 0 {
+			break
+		}
+		next := make([]*Term, 0, len(cur)+len(fresh))
+		seen := map[*Term]bool{}
+		for _, f := range cur {
+			g := e.C.Subst(f, fresh)
+			if g.IsTrue() || seen[g] {
+				continue
+			}
+			seen[g] = true
+			next = append(next, g)
+		}
+		for k, v := range fresh {
+			var d *Term
+			if k.S.IsBool() {
+				if v == trueTerm {
+					d = k
+				} else {
+					d = e.C.Not(k)
+				}
+			} else {
+				d = e.C.Eq(k, v)
+			}
+			next = append(next, d)
+		}
+		cur = next
+		goal = e.C.Subst(goal, fresh)
+	}
+	return cur, goal
 }
 
 // cover emits a must-be-satisfiable check.
@@ -437,7 +490,21 @@ func bigi(v int64) *big.Int { return big.NewInt(v) }
 // constFacts collects `var == const` equalities from a path condition.
 func constFacts(pc []*Term) map[*Term]*Term {
 	var m map[*Term]*Term
+	var flat []*Term
+	var fl func(f *Term)
+	fl = func(f *Term) {
+		if f.Op == "and" {
+			for _, a := range f.Args {
+				fl(a)
+			}
+			return
+		}
+		flat = append(flat, f)
+	}
 	for _, f := range pc {
+		fl(f)
+	}
+	for _, f := range flat {
 		if f.Op == "var" && f.S.IsBool() {
 			if m == nil {
 				m = map[*Term]*Term{}
